@@ -3,5 +3,6 @@ NEXT Next
 CONSTANTS MaxWide = 3
           MaxNarrow = 4
           Lanes = 16
+          Full = FALSE
 INVARIANT SpecSane
 CHECK_DEADLOCK FALSE
